@@ -33,7 +33,7 @@ HOST_CASES = [("rsa", n, b, dis) for n in RSA_ALGOS for b in RSA_ALGOS for dis i
              [("ec", n, b, False) for n in EC_ALGOS for b in EC_ALGOS + ("ssh-rsa",)]
 CERT = "-cert-v01@openssh.com"
 AUTH_DECL = RSA_ALGOS + tuple(a + CERT for a in RSA_ALGOS)
-AUTH_CASES = [("rsa", a, b, dis) for a in AUTH_DECL for b in RSA_ALGOS for dis in ("none", "B", "A")] + \
+AUTH_CASES = [("rsa", a, b, dis) for a in AUTH_DECL for b in RSA_ALGOS for dis in ("none", "B", "A", "A+probe", "B+probe")] + \
              [("ec", a, b, "none") for a in EC_ALGOS for b in EC_ALGOS]
 CASES = [("host",) + c for c in HOST_CASES] + [("auth",) + c for c in AUTH_CASES]
 BUDGET = {"quick": {"runs": len(CASES) * 4, "wall": 55}, "thorough": {"runs": len(CASES) * 150, "wall": 560}}
@@ -163,17 +163,27 @@ def auth_case(sim, link, case):
             m.rewind(); m.get_text()
             sig = sstr(B) + sstr(m.get_binary())
         state["rewritten"] += 1
-        return [head + sstr(sig)]
+        out = []
+        if probe:
+            # first ask, without a signature and under an ENABLED algorithm, whether the key is acceptable
+            q = [x for x in RSA_ALGOS if x not in disabled][0]
+            out.append(bytes([50]) + sstr(user) + sstr(service) + sstr(b"publickey") + b"\x00" + sstr(q) + sstr(ck.asbytes() if not A.endswith(CERT) else keyblob))
+            sim.fault("pk_probe_first")
+        out.append(head + sstr(sig))
+        return out
 
     holder = {}
+    probe = dis.endswith("+probe")
+    dis = dis.replace("+probe", "")
     disabled = {"none": [], "B": [B], "A": [A.replace(CERT, "")]}[dis]
     skw = {"disabled_algorithms": {"pubkeys": disabled}} if disabled else {}
     server = ssh.ScriptedServer(sim, allowed_keys=[ck])
     p = ssh.Pair(sim, link=link, client_pk=ssh.byzantine_packetizer("c", plog, mutate_out=mutate_out),
-                 server_kw=skw, server=server)
+                 server_pk=ssh.observing_packetizer("s", plog), server_kw=skw, server=server)
     p.plog = plog
     holder["p"] = p
-    desc = {"side": "user-auth", "declared": A, "signature_algorithm": B, "server_disabled_pubkeys": disabled}
+    desc = {"side": "user-auth", "declared": A, "signature_algorithm": B, "server_disabled_pubkeys": disabled,
+            "probe_first": probe}
     p.start(timeout=30)
     p.wait_server()
     err = None
@@ -184,8 +194,8 @@ def auth_case(sim, link, case):
     ssh.quiesce(sim, [link], (), settle=0.2, limit=10)
     if not state["rewritten"]:
         raise RuntimeError("the client never sent a signed publickey request: %r" % (err,))
-    authed = p.ts.is_authenticated()
-    success_on_wire = any(e[2] == "s" and e[3] == "tx" and e[4] == 52 for e in p.plog_all()) if hasattr(p, "plog_all") else None
+    # USERAUTH_SUCCESS on the wire is the verdict (is_authenticated() turns False once the connection is gone)
+    authed = p.ts.is_authenticated() or any(e[2] == "s" and e[3] == "tx" and e[4] == 52 for e in plog)
     A0 = A.replace(CERT, "")
     expect = (B == A0) and (A0 not in disabled)
     if authed and not expect:
